@@ -118,7 +118,8 @@ pub struct Session {
     /// The session follows a disconnect of the same client or a server restart (C09 territory).
     pub after_crash: bool,
     /// Known finding F20, narrowed: (entity, kind) cells whose value may have been dropped.
-    pub f20_cells: BTreeSet<(u64, Kind)>,
+    /// Value: tick from which the cell is trustworthy again (u32::MAX while the dropped value is outstanding).
+    pub f20_cells: BTreeMap<(u64, Kind), u32>,
 }
 
 impl Session {
@@ -164,7 +165,7 @@ impl Session {
             pred: BTreeSet::new(),
             hist: BTreeMap::new(),
             after_crash: false,
-            f20_cells: BTreeSet::new(),
+            f20_cells: BTreeMap::new(),
         }
     }
     pub fn up(&self) -> bool {
@@ -1172,7 +1173,7 @@ impl Sim {
                     for (e, comps) in &m.ents {
                         sess.f20_ents.insert(*e);
                         for r in comps {
-                            sess.f20_cells.insert((*e, r.kind));
+                            sess.f20_cells.insert((*e, r.kind), u32::MAX);
                         }
                     }
                 }
